@@ -43,20 +43,6 @@ def Expr.vars : Expr → List String
   | .mm _ a b => a.vars ++ b.vars
   | .toStr a => a.vars
 
-def Stmt.assigned : Stmt → List String
-  | .skip => []
-  | .seq a b => a.assigned ++ b.assigned
-  | .assign x _ => [x]
-  | .aug x _ _ => [x]
-  | .tuple _ xs _ => xs
-  | .ctuple _ _ xs _ => xs
-  | .ifs _ t e => t.assigned ++ e.assigned
-  | .whileLoop _ b => b.assigned
-  | .forRange _ _ b => b.assigned
-  | .write _ => []
-  | .sleep _ => []
-  | .brk => []
-
 /-- the characters a literal of the fragment may contain: printable ASCII (the emitted literal escapes `\` and `"`,
     `Esc.escape`; what the C++ lexer reads back is C06's `escape_roundtrip`) -/
 def okLitChar (c : Char) : Bool := 32 ≤ c.toNat && c.toNat < 127
@@ -120,6 +106,7 @@ def Stmt.okNested (allAssigned : List String) (te : C.TyEnv) : Stmt → Bool
   | .write e => e.wt te && inferTy te e != .bool
   | .sleep e => e.okCond te
   | .brk => true
+  | .call _ _ _ _ _ _ _ _ => false          -- W6, increment 1: calls are modelled (both semantics, `tr`, ties) but not yet proved
 
 /-- the prologue, statement by statement, threading the declarations exactly as `trTop` does -/
 def Stmt.okTop (allAssigned : List String) (te : C.TyEnv) : Stmt → Option C.TyEnv
